@@ -316,6 +316,25 @@ pub fn beyond_small_scope() -> Vec<String> {
             }
         }
     }
+    // (f) every row and repeat row of up to 4 entries over {0, C, (1), bits(0..3, n)} under headers of 1..3 names:
+    // a row is as long as the columns its entries cover
+    {
+        let entries = ["0", "C", "(1)", "bits(0,1)", "bits(1,1)", "bits(2,1)", "bits(3,1)"];
+        for ncols in 1..=3usize {
+            let header: Vec<String> = (0..ncols).map(|i| format!("S{i}")).collect();
+            for len in 1..=4usize {
+                for code in 0..entries.len().pow(len as u32) {
+                    let row: Vec<&str> = (0..len).map(|j| entries[(code / entries.len().pow(j as u32)) % entries.len()]).collect();
+                    let row = row.join(" ");
+                    out.push(format!("{}\n{row}\n", header.join(" ")));
+                    out.push(format!("{}\nrepeat(2) {row}", header.join(" ")));
+                    if len <= 3 {
+                        out.push(format!("{}\nloop(i,2)\nrepeat(2) {row}\nend loop\n", header.join(" ")));
+                    }
+                }
+            }
+        }
+    }
     // (e) literals around 2^63 and 2^64, also behind a unary minus
     for lit in ["9223372036854775807", "9223372036854775808", "9223372036854775809", "18446744073709551615", "18446744073709551616", "99999999999999999999999", "0x7FFFFFFFFFFFFFFF", "0x8000000000000001", "0xFFFFFFFFFFFFFFFF", "0x10000000000000000", "0b1111111111111111111111111111111111111111111111111111111111111111", "01777777777777777777777", "02000000000000000000000"] {
         for pre in ["", "-", "- ", "--", "~", "!", "-(", "0 - "] {
